@@ -32,6 +32,26 @@ def rel(frm, to, rng):
 def rand_case(rng):
     files = {k: [] for k in F}
     nlines = 1 + rng.below(6)
+    if rng.chance(1, 4):
+        # one file repeats its import lines for two or three different targets, interleaved (x, y, x, y ...): per-file merging of
+        # equal spellings must not disturb the lines of the other targets
+        frm = rng.choice(sorted(F))
+        tos = []
+        while len(tos) < 2 + rng.below(2):
+            t = rng.choice(sorted(F))
+            if t not in tos and len(FRAGS[t]) >= 2:
+                tos.append(t)
+        specs = {t: rel(F[frm], F[t], rng) for t in tos}
+        if len({tuple(v) for v in specs.values()}) == len(tos):
+            order = [t for t in tos for _ in range(2)]
+            for i in range(len(order) - 1, 0, -1):
+                j = rng.below(i + 1)
+                order[i], order[j] = order[j], order[i]
+            used = {t: 0 for t in tos}
+            for t in order:
+                files[frm].append({"spec": specs[t], "wild": False, "names": [FRAGS[t][used[t] % len(FRAGS[t])]]})
+                used[t] += 1
+            nlines = rng.below(3)
     for _ in range(nlines):
         frm = rng.choice(sorted(F))
         if rng.chance(1, 12):
